@@ -34,9 +34,13 @@ def _map_spec():
         (1, st.tuples(st.just("index_bad"), st.sampled_from(["int", "none"])).map(list)),
         (1, st.just(["freeze"])),
         (3, st.tuples(st.just("add_other"), st.integers(0, 7)).map(list)),     # the same source added to a second map
+        # a Monitor over this map that is refused (bad trigger mode / not a map): must leave the map as it was
+        (1, st.tuples(st.just("monitor_bad"), st.sampled_from(["edge", "", 3])).map(list)),
     )
     return st.fixed_dictionaries({"kind": st.just("map"),
-                                  "ops": st.lists(op, min_size=4, max_size=25)})
+                                  "ops": st.lists(op, min_size=4, max_size=25),
+                                  # sources are instances of a user subclass with value equality (all equal, same hash)
+                                  "eq_sources": st.sampled_from([False, False, True])})
 
 
 @st.composite
@@ -64,9 +68,20 @@ def strategy(tier):
     return gens.with_pre(weighted((1, _map_spec()), (2, _sim_spec(tier))))
 
 
+class EqSource(event.Source):
+    """A user subclass with value semantics: every instance equals every other and hashes alike."""
+    def __eq__(self, other):
+        return isinstance(other, EqSource)
+
+    def __hash__(self):
+        return 13
+
+
 def _check_map(spec, stats):
     stats.label("kind:map")
-    pool = [event.Source(trigger=MODES[i % 3], path=(f"s{i}",)) for i in range(8)]
+    cls = EqSource if spec.get("eq_sources") else event.Source
+    stats.label("value_equal_sources", bool(spec.get("eq_sources")))
+    pool = [cls(trigger=MODES[i % 3], path=(f"s{i}",)) for i in range(8)]
     emap = event.EventMap()
     other, other_model = event.EventMap(), []
     model = []       # sources in order of first addition
@@ -80,11 +95,12 @@ def _check_map(spec, stats):
         got = list(emap.sources())
         exp = [(s, i) for i, s in enumerate(model)]
         if len(got) != len(exp) or any(g[0] is not e[0] or g[1] != e[1] for g, e in zip(got, exp)):
-            raise Violation("C13/map/sources", f"{where}: sources() = {[(pool.index(g[0]), g[1]) for g in got]}, "
-                            f"model {[(pool.index(e[0]), e[1]) for e in exp]}")
+            pi = lambda x: [k for k, y in enumerate(pool) if y is x][:1]
+            raise Violation("C13/map/sources", f"{where}: sources() = {[(pi(g[0]), g[1]) for g in got]}, "
+                            f"model {[(pi(e[0]), e[1]) for e in exp]}")
         for i, s in enumerate(model):
             if emap.index(s) != i:
-                raise Violation("C13/map/index", f"{where}: index(source {pool.index(s)}) = {emap.index(s)}, model {i}")
+                raise Violation("C13/map/index", f"{where}: index(source #{[k for k, y in enumerate(pool) if y is s][0]}) = {emap.index(s)}, model {i}")
 
     for n, op in enumerate(spec["ops"]):
         where = f"op#{n} {op}"
@@ -135,6 +151,13 @@ def _check_map(spec, stats):
                 pass
             else:
                 raise Violation("C13/map/index-bad-accepted", f"{where}")
+        elif op[0] == "monitor_bad":
+            try:
+                event.Monitor(emap, trigger=op[1])
+            except (TypeError, ValueError):
+                stats.label("refused_monitor")
+            else:
+                raise Violation("C13/map/monitor-bad-accepted", f"{where}: Monitor(trigger={op[1]!r}) accepted")
         elif op[0] == "freeze":
             emap.freeze()
             frozen = True
@@ -143,7 +166,8 @@ def _check_map(spec, stats):
             other.add(s2)
             if not any(x is s2 for x in other_model):
                 other_model.append(s2)
-            if any(x is s2 for x in model) and model.index(s2) != other_model.index(s2):
+            ix = lambda lst, x: [k for k, y in enumerate(lst) if y is x][0]
+            if any(x is s2 for x in model) and ix(model, s2) != ix(other_model, s2):
                 stats.label("source_in_two_maps")
             for i2, x in enumerate(other_model):
                 if other.index(x) != i2:
